@@ -253,6 +253,20 @@ def pi3_full_forward_iteration(ctx, rep, which=("REDUCE", "HOOK:before_reduce", 
                 isite_bb = iters[0][1][1]
                 src = bp.arg_term(isite_bb, 0)
                 rep.check(not cfg.in_cycle(isite_bb) or isite_bb not in blks, R, "iterator-created-before-loop:" + key, ctx.where(body, isite_bb), "iterator created once before the loop", "iterator re-created inside the loop")
+            elif not iters and it_ty.startswith("std::slice::Iter<"):
+                # `for x in &collection` / `for x in &*guard`: <&Vec<T> as IntoIterator>::into_iter
+                # is `self.iter()`; the provenance table passes it through, so the iterator term
+                # is the collection itself and the iterator's type (checked above) says it is the
+                # plain forward slice iterator.  The into_iter call of a `for` head is evaluated
+                # once, before the loop.
+                def _fn(bl):
+                    return ((bl["term"].get("func") or {}).get("fn") or {}) if bl["term"]["k"] == "call" else {}
+                vec_into = [i for i, bl in enumerate(body.blocks) if _fn(bl).get("path") == "std::iter::IntoIterator::into_iter"
+                            and (_fn(bl).get("args") or ["?"])[0].startswith("&std::vec::Vec<")]
+                good_src = bool(vec_into)
+                src = it_t
+                for isite_bb in vec_into:
+                    rep.check(isite_bb not in blks, R, "iterator-created-before-loop:" + key, ctx.where(body, isite_bb), "iterator created once before the loop", "iterator re-created inside the loop")
             rep.check(good_src, R, "iterator-over-whole-collection:" + key, nsite.where, "iterator is <collection>.iter() (%s)" % term_str(it_t), "iterator is %s, not a plain .iter() of the collection" % term_str(it_t))
             if src is not None:
                 fld = field_for.get(lab, A.f_middlewares)
